@@ -474,6 +474,15 @@ func (fc *FuncCtx) ap0(v ssa.Value) string {
 		}
 		return fc.uniq("phi", v)
 	case *ssa.Call:
+		// cmp.Or(a, b, ...): the first non-zero operand, the same value as the module's firstSet helper / the
+		// "if a == zero { a = b }" idiom
+		if ops := cmpOrOperands(x); len(ops) >= 2 {
+			var parts []string
+			for _, o := range ops {
+				parts = append(parts, fc.AP(o))
+			}
+			return "firstSet(" + strings.Join(parts, ",") + ")"
+		}
 		return fc.callAP(x)
 	case *ssa.MakeClosure:
 		return "closure:" + fc.A.P.FnName(x.Fn.(*ssa.Function))
@@ -913,4 +922,21 @@ func returnsError(sig *types.Signature) bool {
 		}
 	}
 	return false
+}
+
+// cmpOrOperands: the operands of a call to cmp.Or, in order; nil for any other call.
+func cmpOrOperands(c *ssa.Call) []ssa.Value {
+	sc := c.Call.StaticCallee()
+	if sc == nil || !strings.HasPrefix(sc.String(), "cmp.Or[") || len(c.Call.Args) != 1 {
+		return nil
+	}
+	sl, ok := c.Call.Args[0].(*ssa.Slice)
+	if !ok {
+		return nil
+	}
+	al, ok := sl.X.(*ssa.Alloc)
+	if !ok {
+		return nil
+	}
+	return arrayLiteralElems(al)
 }
